@@ -467,6 +467,19 @@ Check C09_inst_C02_reparse_special : forall dbg idna, IdnaOK idna -> forall inpu
   /\ wf_b u = true /\ canon_special (host_parse idna) host_parse_opaque host_display u.
 Print Assumptions C09_inst_C02_reparse_special.
 
+(* ... but C02's full statement, read for the linked model, is FALSE: Url::parse("a://x/") then
+   set_ip_host(127.0.0.1) - a step outside every Known class of C02_Reach.v - gives a://127.0.0.1/ with host kind
+   Ipv4, and its serialization re-parses to the same text and offsets with host kind Domain (Host::parse_opaque
+   does not read IPv4; confirmed on the crate: host() differs, the two Urls compare equal).  Fixpoint_of_reparse
+   compares records.  A further class is needed: set_ip_host(V4) on a URL whose scheme is not special. *)
+Theorem C09_inst_C02_model_refuted : ~ C02_model_statement.
+Proof. exact C02_model_refuted. Qed.
+Check C09_inst_C02_model_refuted :
+  ~ (forall dbg idna, IdnaOK idna -> forall u,
+       C02_Reach.Reachable dbg (host_parse idna) host_parse_opaque host_display u ->
+       parse_url dbg (host_parse idna) host_parse_opaque host_display None None (utf8_lossy (ser u)) = POk u).
+Print Assumptions C09_inst_C02_model_refuted.
+
 (* C05, whole parser: any input (no range condition), any base with bytes in 0x20..0x7E, any override *)
 Theorem C09_inst_C05_parse : forall dbg idna, IdnaOK idna -> forall ovr base input u,
   match base with Some b => Forall ok_or_space (ser b) | None => True end ->
